@@ -2,9 +2,35 @@
    Statements only; proofs in proofs/EvalFacts.v (membership) and proofs/PolyFacts.v (emptiness). *)
 From Coq Require Import List String Bool QArith Reals.
 Import ListNotations.
-Require Import Py ListsGen Sem Term Poly PolySpec TermFacts PolyLP PolyFacts.
+Require Import Py ListsGen ConstGen Sem Term Poly PolySpec TermFacts PolyLP PolyFacts EvalFacts.
 
 Theorem C11_is_empty : forall O ts, lp_spec 0 O -> lp_total O -> wfl ts ->
   (poly_is_empty O ts = inl true <-> forall rho, ~ sat_list rho ts) /\ (exists b, poly_is_empty O ts = inl b).
 Proof. exact is_empty_iff. Qed.
 Print Assumptions C11_is_empty.
+
+(* membership is decided exactly, boundary points included *)
+Theorem C11_contains_exact : forall ts b, Forall wft ts -> NoDup (keys b) ->
+  (forall v, In v (tl_vars ts) -> In v (keys b)) ->
+  contains_behavior ts b = inl (forallb (satQb (bval b)) ts).
+Proof. exact contains_iff. Qed.
+Print Assumptions C11_contains_exact.
+
+Theorem C11_contains_real : forall ts b, Forall wft ts -> NoDup (keys b) ->
+  (forall v, In v (tl_vars ts) -> In v (keys b)) ->
+  (contains_behavior ts b = inl true <-> sat_list (q2r_val (bval b)) ts).
+Proof. exact contains_real. Qed.
+Print Assumptions C11_contains_real.
+
+(* ValueError exactly when a constrained variable is left unassigned *)
+Theorem C11_unassigned : forall ts b,
+  (exists v, In v (tl_vars ts) /\ ~ In v (keys b)) <-> contains_behavior ts b = inr ValueErr.
+Proof. exact contains_unassigned. Qed.
+Print Assumptions C11_unassigned.
+
+(* consistent with refinement *)
+Theorem C11_mono : forall O A B b, lp_spec 0 O -> wfl A -> wfl B -> small_consts B -> NoDup (keys b) ->
+  contains_behavior A b = inl true -> poly_refines O A B = inl true ->
+  Forall (sat_tol REFINEMENT_TOLERANCE (q2r_val (bval b))) B.
+Proof. exact contains_mono. Qed.
+Print Assumptions C11_mono.
